@@ -198,10 +198,34 @@ fn gcd_pair(prof: Prof, maxw: usize) -> BoxedStrategy<(Nat, Nat, u8)> {
         ),
         (
             5,
-            (gen::nat_nz(Prof::Tiny), proptest::collection::vec((0u8..16, any::<u64>()), 1..=maxw.min(40)), any::<bool>())
-                .prop_map(|(g, qs, swap)| {
+            (gen::nat_nz(Prof::Tiny), proptest::collection::vec((0u8..16, any::<u64>()), 1..=maxw.min(40)), any::<bool>(), any::<bool>())
+                .prop_map(|(g, qs, swap, huge_last)| {
                     let (mut hi, mut lo) = (g.big(), BigUint::zero());
-                    for (sel, s) in qs {
+                    for (i, (sel, s)) in qs.into_iter().enumerate() {
+                        // the first quotient applied is the last one of the Euclidean sequence: a huge
+                        // one after small ones is where an underestimated Lehmer quotient shows
+                        let sel = if i == 0 && huge_last { 8 + sel % 8 } else { sel };
+                        let nh = quotient(sel, s) * &hi + &lo;
+                        lo = std::mem::replace(&mut hi, nh);
+                    }
+                    let (a, b) = (Nat::from_big(&hi), Nat::from_big(&lo));
+                    if swap {
+                        (b, a, 4u8)
+                    } else {
+                        (a, b, 4u8)
+                    }
+                })
+                .boxed(),
+        ),
+        (
+            2,
+            // ..., huge, {2,3}, {2,3}, huge: a tiny remainder right after small quotients is where the
+            // single-word Lehmer guess is least certain about its last quotient
+            (gen::nat_nz(Prof::Tiny), (8u8..16, any::<u64>()), 3u8..5, 3u8..5, (8u8..16, any::<u64>()), proptest::collection::vec((0u8..16, any::<u64>()), 0..4), any::<bool>())
+                .prop_map(|(g, h_last, m2, m1, h_first, more, swap)| {
+                    let (mut hi, mut lo) = (g.big(), BigUint::zero());
+                    let seq = [h_last, (m2, 0), (m1, 0), h_first].into_iter().chain(more);
+                    for (sel, s) in seq {
                         let nh = quotient(sel, s) * &hi + &lo;
                         lo = std::mem::replace(&mut hi, nh);
                     }
@@ -282,18 +306,24 @@ struct GcdInfo<'a> {
 
 /// (g, s, t) must satisfy g == gcd and s·a + t·b == g exactly (no minimality asserted:
 /// the rustdoc only promises "the Bézout coefficients")
-fn check_ext(out: &mut Out, what: &str, got: Result<(UBig, IBig, IBig), String>, i: &GcdInfo) -> Option<String> {
+enum ExtFault {
+    Panic(String),
+    /// g is right, the coefficients are not
+    Bezout(String),
+}
+
+fn check_ext(out: &mut Out, what: &str, got: Result<(UBig, IBig, IBig), String>, i: &GcdInfo) -> Option<ExtFault> {
     match got {
         Ok((g, s, t)) => {
             let (g, s, t) = (u2n(&g), i2n(&s), i2n(&t));
             if &g != i.g {
                 out.fail(format!("{what}: gcd {} want {}", show_u(&g), show_u(i.g)));
             } else if &s * i.na + &t * i.nb != BigInt::from(g.clone()) {
-                out.fail(format!("{what}: s·a + t·b != g with s = {}, t = {}, g = {}", show_i(&s), show_i(&t), show_u(&g)));
+                return Some(ExtFault::Bezout(format!("s·a + t·b != g with s = {}, t = {}, g = {}", show_i(&s), show_i(&t), show_u(&g))));
             }
             None
         }
-        Err(m) => Some(m),
+        Err(m) => Some(ExtFault::Panic(m)),
     }
 }
 
@@ -377,7 +407,7 @@ fn gcd_big(c: &GcdCase, ctx: &Ctx) -> Out {
     let ii = GcdInfo { na: &na, nb: &nb, g: &g };
     let ui = GcdInfo { na: &iua, nb: &nb, g: &g };
     let iu = GcdInfo { na: &na, nb: &iub, g: &g };
-    let mut panics: Vec<(&'static str, String)> = Vec::new();
+    let mut panics: Vec<(&'static str, ExtFault)> = Vec::new();
     let mut run = |out: &mut Out, what: &'static str, got: Result<(UBig, IBig, IBig), String>, i: &GcdInfo| {
         if let Some(m) = check_ext(out, what, got, i) {
             panics.push((what, m));
@@ -395,8 +425,13 @@ fn gcd_big(c: &GcdCase, ctx: &Ctx) -> Out {
     run(&mut out, "UBig.gcd_ext(IBig) val.val", catch(|| ua.clone().gcd_ext(b.clone())), &ui);
     run(&mut out, "IBig.gcd_ext(UBig) ref.ref", catch(|| (&a).gcd_ext(&ub)), &iu);
     run(&mut out, "IBig.gcd_ext(UBig) val.val", catch(|| a.clone().gcd_ext(ub.clone())), &iu);
-    for (what, m) in panics {
-        gcd_ext_panic(&mut out, ctx, c, what, &m);
+    if !panics.is_empty() {
+        // the (costly) class predicates are evaluated once per case
+        let short = short_cofactor_class(c);
+        let invalid = lehmer_accepts_invalid_step(c);
+        for (what, f) in panics {
+            gcd_ext_fault(&mut out, ctx, what, &f, short, invalid);
+        }
     }
     out
 }
@@ -427,13 +462,125 @@ fn short_cofactor_class(c: &GcdCase) -> bool {
     words(&s) + words(&tmin) + 1 < words(&l)
 }
 
-/// a panic of gcd_ext on non-(0,0) operands is never documented
-fn gcd_ext_panic(out: &mut Out, ctx: &Ctx, c: &GcdCase, what: &str, m: &str) {
-    let nm = normalise(m);
-    if nm.contains("assertion failed: lhs.len() >= rhs.len() && rhs.len() >= #") && nm.contains("integer/src/div/mod.rs") && short_cofactor_class(c) {
-        ctx.known_or_fail(out, "C12/gcd-ext-large-short-cofactor", || format!("{what}: panic {nm}"));
-    } else {
-        out.fail(format!("{what}: unexpected panic {nm}"));
+/// `lehmer_guess` / `lehmer_guess_dword` of integer/src/gcd/lehmer.rs transcribed (u128 arithmetic,
+/// `limit` = SignedWord::MAX), plus a flag: did it accept a second-half step that Jebelean's exact
+/// condition `x̄_i − x̄_(i+1) >= v_(i+1) − v_i`, i.e. `t + r <= xbar − b`, rejects?  (The source tests
+/// `xbar − c`, the bound of the *first* half step; with c < b a quotient that is one too small can be
+/// accepted.)
+fn lehmer_guess_sim(mut xbar: u128, mut ybar: u128) -> (u128, u128, u128, u128, bool) {
+    const LIMIT: u128 = i64::MAX as u128;
+    let (mut a, mut b, mut c, mut d) = (1u128, 0u128, 0u128, 1u128);
+    let mut invalid = false;
+    while ybar != 0 {
+        let q = xbar / ybar;
+        if q > LIMIT {
+            break;
+        }
+        let (r, s, t) = (a + q * c, b + q * d, xbar - q * ybar);
+        if r > LIMIT || s > LIMIT {
+            break;
+        }
+        if t < s || t + r > ybar - c {
+            break;
+        }
+        a = r;
+        b = s;
+        xbar = t;
+        if xbar == b {
+            break;
+        }
+        let q = ybar / xbar;
+        if q > LIMIT {
+            break;
+        }
+        let (r, s, t) = (d + q * b, c + q * a, ybar - q * xbar);
+        if r > LIMIT || s > LIMIT {
+            break;
+        }
+        if t < s || t + r > xbar - c {
+            break;
+        }
+        if t + r > xbar - b {
+            invalid = true; // accepted by the source, rejected by the exact condition
+        }
+        d = r;
+        c = s;
+        ybar = t;
+        if ybar == c {
+            break;
+        }
+    }
+    (a, b, c, d, invalid)
+}
+
+/// Input class of finding C12/lehmer-guess-invalid-step: replay the reduction loop of
+/// `gcd_ext_in_place` (same guesses on the same leading bits, Euclidean step when the guess fails)
+/// on the reference integers until the guess accepts an invalid step.  Up to that point the pair is a
+/// pair of true consecutive Euclidean remainders, so the replay is faithful.
+fn lehmer_accepts_invalid_step(c: &GcdCase) -> bool {
+    let (la, lb) = (c.a.mag.trimmed_len(), c.b.mag.trimmed_len());
+    if la < 3 || lb < 3 {
+        return false;
+    }
+    let (mut x, mut y) = (c.a.mag.big(), c.b.mag.big());
+    if x < y {
+        std::mem::swap(&mut x, &mut y);
+    }
+    let words = |n: &BigUint| ((n.bits() + 63) / 64) as usize;
+    let top = |n: &BigUint, k: u64| -> u128 {
+        let v = (n >> k).to_u64_digits();
+        v.first().copied().unwrap_or(0) as u128 | ((v.get(1).copied().unwrap_or(0) as u128) << 64)
+    };
+    while words(&y) > 1 {
+        // MIN_DWORD_GUESS_LEN = 300: one-word guess below, two-word guess from there on
+        let width = if words(&x) < 300 { 64 } else { 128 };
+        let k = x.bits() - width;
+        let (ga, gb, gc, gd, invalid) = lehmer_guess_sim(top(&x, k), top(&y, k));
+        if invalid {
+            return true;
+        }
+        if gb == 0 {
+            let r = &x % &y;
+            x = std::mem::replace(&mut y, r);
+        } else {
+            let (ga, gb, gc, gd) = (BigUint::from(ga), BigUint::from(gb), BigUint::from(gc), BigUint::from(gd));
+            let (ax, by, dy, cx) = (&ga * &x, &gb * &y, &gd * &y, &gc * &x);
+            if ax < by || dy < cx {
+                return false; // cannot happen for valid steps; give up rather than guess
+            }
+            x = ax - by;
+            y = dy - cx;
+            if x <= y {
+                std::mem::swap(&mut x, &mut y);
+            }
+        }
+    }
+    false
+}
+
+/// a panic of gcd_ext on non-(0,0) operands is never documented; neither are wrong coefficients
+fn gcd_ext_fault(out: &mut Out, ctx: &Ctx, what: &str, f: &ExtFault, short_cofactor: bool, invalid_step: bool) {
+    match f {
+        ExtFault::Panic(m) => {
+            let nm = normalise(m);
+            if nm.contains("assertion failed: lhs.len() >= rhs.len() && rhs.len() >= #") && nm.contains("integer/src/div/mod.rs") && short_cofactor {
+                ctx.known_or_fail(out, "C12/gcd-ext-large-short-cofactor", || format!("{what}: panic {nm}"));
+            } else if nm.contains("assertion `left == right` failed") && nm.contains("integer/src/gcd_ops.rs") && invalid_step {
+                // debug_assert_eq!(residue[0], 0): "this division is an exact division" — the cofactor is wrong
+                ctx.known_or_fail(out, "C12/lehmer-guess-invalid-step", || format!("{what}: panic {nm}"));
+            } else {
+                out.fail(format!("{what}: unexpected panic {nm}"));
+            }
+        }
+        ExtFault::Bezout(msg) => {
+            // same root cause when the debug assertion cannot see it (it looks at the lowest word of
+            // the remainder only, which is 0 whenever both operands have a zero low word)
+            if invalid_step {
+                ctx.known_or_fail(out, "C12/lehmer-guess-invalid-step", || format!("{what}: {msg}"));
+            } else {
+                out.fail(format!("{what}: {msg}"));
+            }
+        }
     }
 }
 
@@ -776,17 +923,11 @@ fn roots(c: &RootCase, ctx: &Ctx) -> Out {
     out
 }
 
-/// C12/sqrt-rem-odd-words-remainder-shifted: `sqrt_rem_large` with an odd word count and a top
-/// word that needs no bit shift (leading zeros < 2, i.e. shift == WORD_BITS exactly) returns the
-/// remainder without undoing the one-word normalisation shift: rem·2^64.
-fn sqrt_rem_wrong(out: &mut Out, ctx: &Ctx, c: &RootCase, rem: &BigUint, want: &BigUint) {
-    let words = c.x.mag.trimmed_len();
-    let detail = || format!("UBig::sqrt_rem remainder {} want {}", show_u(rem), show_u(want));
-    if words >= 3 && words % 2 == 1 && top_word(&c.x.mag).leading_zeros() < 2 && *rem == (want << 64usize) {
-        ctx.known_or_fail(out, "C12/sqrt-rem-odd-words-remainder-shifted", detail);
-    } else {
-        out.fail(detail());
-    }
+/// (The odd-word-count defect of `sqrt_rem_large` — remainder returned multiplied by 2^64 when the
+/// normalisation shift is exactly one word — was repaired in /repo by c0e45ea; it is pinned by
+/// /verif/regress/C12/root_any-sqrt-rem-3words.json and nothing is suppressed here.)
+fn sqrt_rem_wrong(out: &mut Out, _ctx: &Ctx, _c: &RootCase, rem: &BigUint, want: &BigUint) {
+    out.fail(format!("UBig::sqrt_rem remainder {} want {}", show_u(rem), show_u(want)));
 }
 /// C12/nth-root-zero-returns-one: `TypedReprRef::nth_root(n >= 3)` answers 1 for every radicand
 /// with bit_len <= n, including 0.
@@ -812,7 +953,7 @@ fn root_panic(out: &mut Out, ctx: &Ctx, c: &RootCase, what: &str, m: &str) {
 
 /// x = s^2 + r with 0 <= r <= 2s chosen: the whole range of remainders for a given root
 fn sqrt_case(lo: usize, hi: usize) -> impl Strategy<Value = RootCase> {
-    (gen::nat_len(lo, hi), 0u8..10, any::<u64>(), 0u8..8).prop_map(|(s, rsel, seed, neg)| {
+    (prop_oneof![1 => Just(Nat(vec![])).boxed(), 24 => gen::nat_len(lo.max(1), hi)], 0u8..10, any::<u64>(), 0u8..8).prop_map(|(s, rsel, seed, neg)| {
         let ns = s.big();
         let two_s = &ns * 2u8;
         let r: BigUint = match rsel {
